@@ -189,7 +189,16 @@ def run_case(case):
     nd = len(dims)
     d = dims[ax]
     a = core.build(spec)
+    for i_, ax_ in enumerate(a.axes):            # "leaves the other axes ... unchanged": they carry metadata of their own
+        ax_.attrs["long_name"] = "axis %d" % i_
+        ax_.attrs["lst"] = [i_]
     snap = core.snapshot(a)
+
+    def other_axes_kept(res, interpolated, what):
+        for i_, d_ in enumerate(dims):
+            if d_ not in interpolated:
+                check(core.attrs_equal(res.axes[d_].attrs, {"long_name": "axis %d" % i_, "lst": [i_]}), "other-axis-metadata-not-kept",
+                      {"what": what, "dim": d_, "got": core.jsonable(dict(res.axes[d_].attrs))}, sig)
     left = float("nan") if case["left"] == "nan" else case["left"]
     right = float("nan") if case["right"] == "nan" else case["right"]
     kw = {}
@@ -218,6 +227,7 @@ def run_case(case):
         newlabels[ax] = list(new)
         core.expect_array(res, dims, newlabels, expected_fn(spec, d, left, right), what, tol=True, sig=sig)
         check(core.attrs_equal(res.attrs, spec["attrs"]), "attrs-not-kept", {"what": what, "got": core.jsonable(res.attrs)}, sig)
+        other_axes_kept(res, [d], what)
     elif case["mode"] == "like":
         t = case["template"]
         taxes = da.Axes([da.Axis(np.array(v, dtype=float), k) for k, v in t.items()])
@@ -238,6 +248,7 @@ def run_case(case):
         mcur = core.model_of_spec(cur) if all(len(l) for l in cur["labels"]) else None
         core.expect_array(res, dims, cur["labels"], (lambda c: mcur.cells[tuple(core.canon_label(c[x]) for x in dims)]), what, tol=True, sig=sig)
         check(core.attrs_equal(res.attrs, spec["attrs"]), "attrs-not-kept", {"what": what, "got": core.jsonable(res.attrs)}, sig)
+        other_axes_kept(res, list(t), what)
         cl.add("like")
     else:
         dspec = {"vars": [["main", spec]] + [["o%d" % j, o] for j, o in enumerate(case["others"])], "attrs": {"title": "t"}}
